@@ -12,6 +12,7 @@ mod bump;
 mod capture;
 mod cli;
 mod depth;
+mod factsio;
 mod lex;
 mod limits;
 mod mem;
